@@ -65,7 +65,7 @@ def run(chk, tier, seed, replay=None):
               'unit_tests': (0, 2)}
     prof_b = {'kinds': 'mixed', 'hooks': 'all', 'outcomes': allk,
               'tests_per_layer': (2, 3), 'opts': opts, 'faults': (0.05, 0.05, 0.0),
-              'permute_names': True}
+              'permute_names': True, 'big': 0.45}
     cases = corecheck.gen_cases(rng, graphs, n1, prof_a, 'a')
     cases += corecheck.gen_cases(rng, graphs, n2, prof_b, 'b')
     for c in cases:
